@@ -2,7 +2,7 @@
 From Coq Require Import List NArith ZArith Bool.
 From Coq.Strings Require Import Byte.
 From Coq Require Import QArith.
-From Model Require Import Bytes Sx Utf8 Frame Parser FrameParser Response Conn Persist Handshake Proxy Transport.
+From Model Require Import Bytes Sx Utf8 Frame Parser FrameParser Response Conn Persist Handshake Proxy Transport Conc.
 Import ListNotations.
 Open Scope N_scope.
 
@@ -147,6 +147,28 @@ Definition cmd_drain (args : list sx) : sx :=
   let '(chunks, t') := drain_all t in
   L [L (map (fun c => A (blen c)) chunks); A (N.of_nat (total t'))].
 
+(* ---------- concurrency ---------- *)
+Definition un_ccall (s : sx) : ccall :=
+  let l := un_L s in
+  match un_N (nth_sx l 0) with
+  | 0 => KSend (un_bool (nth_sx l 1)) (un_bool (nth_sx l 2)) (un_nat (nth_sx l 3))
+  | 1 => KClose (un_nat (nth_sx l 1))
+  | 2 => KServerClose
+  | _ => KDisconnect
+  end.
+Definition sx_cexn (r : option cexn) : sx :=
+  A (match r with None => 0 | Some EUnavailable => 3 | Some EClosed => 4 | Some EClosing => 5 end).
+(* (50 ((call...) per thread) (schedule tids)) -> ((tid label)...) ((tid msg close data rsv1 part)...) ((result...) per thread) *)
+Definition cmd_conc (args : list sx) : sx :=
+  let ths := map (fun t => mk_thread (map un_ccall (un_L t))) (un_L (nth_sx args 0)) in
+  let sched := map un_nat (un_L (nth_sx args 1)) in
+  let '(s, ths') := exec (init_shared, ths) sched in
+  L [ L (map (fun x => L [sx_nat (fst x); sx_nat (snd x)]) (rev (s_log s)));
+      L (map (fun w => L [sx_nat (w_tid w); sx_nat (w_msg w); sx_bool (w_close w); sx_bool (w_data w); sx_bool (w_rsv1 w);
+                          A (match w_part w with P1 => 1 | P2 => 2 end)]) (rev (s_wire s)));
+      L (map (fun th => L (map (fun r => sx_cexn (snd r)) (rev (th_results th)))) ths');
+      L (map (fun x => L [sx_nat (fst x); sx_nat (snd x)]) (rev (s_zorder s))) ].
+
 Definition run_sx (req : sx) : sx :=
   match req with
   | L (A 1 :: args) => cmd_utf8 args
@@ -157,5 +179,6 @@ Definition run_sx (req : sx) : sx :=
   | L (A 31 :: args) => cmd_proxy_request args
   | L (A 32 :: args) => cmd_proxy_negotiate args
   | L (A 40 :: args) => cmd_drain args
+  | L (A 50 :: args) => cmd_conc args
   | _ => L [A 998]
   end.
